@@ -16,6 +16,7 @@ import (
 	"io"
 	"os"
 	"regexp"
+	"runtime"
 	"sort"
 	"strconv"
 	"strings"
@@ -69,6 +70,7 @@ func vhTags(text string) []string {
 }
 
 func (r *vhRec) add(ctx context.Context, line string) {
+	runtime.Gosched() // widen the windows in which concurrent calls interleave
 	key, _ := ctx.Value(vhKey{}).(string)
 	r.mu.Lock()
 	if key == "" {
